@@ -428,6 +428,24 @@ def boundary_cases():
     return [" ".join(c) for c in out]
 
 
+POISON = hx("FAIL")      # in concurrent scenarios the Apply of this value fails, wherever it comes in the apply order
+
+
+def conc_fault_case(rng, k):
+    """a commit that fails in its apply loop and rolls back (each Rollback takes 300 us) while other goroutines commit
+    the same session, edit it, open their own, or read running: rollback must be serialised with all of them"""
+    reg = ["conc", "reg", "3", "interfaces.<*>.mtu", "I", "1,2", "-", "0", "aaa.nas_ip", "S", "-", "-", "0",
+           "interfaces.<*>.description", "S", "1,2", "-", "0"]
+    owner = ["c", "s1:interfaces.eth1.mtu:i%d" % (1500 + k), "s1:interfaces.eth1.description:" + hx("up"),
+             "s1:aaa.nas_ip:" + POISON, "m1"] + (["s1:aaa.nas_ip:" + hx("10.0.0.1"), "m1"] if k % 2 else ["m1"])
+    others = [["m1", "g", "m1", "g"], ["g", "s1:interfaces.eth2.mtu:i9000", "m1", "g"], ["g", "c", "g", "m"],
+              ["m1", "m1", "x1", "g"], ["g", "g", "s1:aaa.nas_ip:" + hx("192.0.2.1"), "m1"]][k % 5]
+    third = [[], ["g", "g", "g"], ["m1", "g"]][k % 3]
+    nt = 3 if third else 2
+    toks = reg + ["threads", str(nt)] + owner + ["|"] + others + (["|"] + third if third else [])
+    return " ".join(toks)
+
+
 def conc_case(rng):
     """2-3 threads race create/set/commit/close on their own sessions (no faults, no reload script)"""
     pats = rng.sample([p for p in PATS if SCHEMA[p][0] not in "NOP"], rng.randint(2, 4))
@@ -445,7 +463,7 @@ def conc_case(rng):
         toks += ["c", sset(), "m1"] + (["c", sset(), "m"] if rng.random() < 0.3 else [])
         for t in range(1, nt):
             toks.append("|")
-            toks += [rng.choice([sset(), sset(), sset(), "m1", "x1", "c", "g"]) for _ in range(rng.randint(2, 4))]
+            toks += [rng.choice([sset(), sset(), sset(), "m1", "x1", "c", "g", "g"]) for _ in range(rng.randint(2, 4))]
         return " ".join(toks)
     for t in range(nt):
         if t:
@@ -460,7 +478,8 @@ def conc_case(rng):
                 ops.append("c")
             elif r < 0.6:
                 i = rng.randrange(len(pats))
-                ops.append("s%s:%s:%s" % (sfx, fill(pats[i], [rng.choice(WILDS[:2])] * 2), good_value(rng, pats[i])))
+                v = POISON if SCHEMA[pats[i]][0] == "S" and rng.random() < 0.2 else good_value(rng, pats[i])
+                ops.append("s%s:%s:%s" % (sfx, fill(pats[i], [rng.choice(WILDS[:2])] * 2), v))
             elif r < 0.85:
                 ops.append("m" + sfx)
             elif r < 0.93:
@@ -472,8 +491,10 @@ def conc_case(rng):
 
 
 def gen_cases(rng, tier, budget):
-    n = budget or (1300 if tier == "quick" else 22000)
+    n = budget or (1200 if tier == "quick" else 22000)
     cases = boundary_cases()
+    for k in range(30 if tier == "quick" else 300):
+        cases.append(conc_fault_case(rng, k))
     for _ in range(max(20, n // 5)):
         cases.append(conc_case(rng))
     for _ in range(n):
